@@ -43,6 +43,7 @@ pub fn sym<A: Cx>(code: u8) -> A {
 pub static CANON: std::sync::atomic::AtomicBool = std::sync::atomic::AtomicBool::new(false);
 
 pub fn canon_scenario(name: &str) -> bool {
+    let name = name.strip_prefix("long_").unwrap_or(name);
     name.starts_with("c02") || name.starts_with("c18") || name.starts_with("c20")
 }
 
@@ -807,7 +808,9 @@ impl<A: Cx> World<A> {
                 let kind = gs(op, "kind");
                 let w = op["w"].as_u64().unwrap_or(0) as usize;
                 self.with_src(&op["x"], &mut |x| {
-                    let cap = x.len() + 8 + if kind == "chain" { 300 } else { 0 };
+                    // a cap on next() calls makes non-termination an observation instead of a hang
+                    let ylen = if kind == "chain" { self.with_src(&op["y"], &mut |y| y.len()) } else { 0 };
+                    let cap = x.len() + ylen + 8;
                     let mut items: Vec<Value> = Vec::new();
                     let mut done = false;
                     macro_rules! run {
